@@ -258,6 +258,24 @@ def run(ck):
             for rx in ("handle_t", "handle.*|ratio_t", ".*_t"):
                 fixed[len(cases)] = [opt, rx, "--rust-edition", "2021"] + (["--default-alias-style", "new_type"] if opt == "--normal-alias" else [])
                 cases.append(("alias-styles", ALIAS_H, False))
+        # C++ member functions in every parameter-naming shape (the wrapper's call site and its signature number unnamed parameters
+        # independently): unnamed / named-then-unnamed / parameters literally called arg0, arg1 / references / defaults, for static, const,
+        # virtual, overloaded methods, constructors, destructors and operators
+        MEMBERS_H = ("struct Ev { int k; };\nenum St { SA, SB };\nclass Buffer {\npublic:\n  int n;\n  Buffer();\n  Buffer(unsigned);\n  Buffer(const char *data, unsigned, int);\n  ~Buffer();\n"
+                     "  static Buffer *create(unsigned);\n  static int count(int, char, double);\n  static void named_static(int first, int);\n"
+                     "  int write(const char *data, unsigned, int);\n  int read(char *, unsigned len) const;\n  int refs(Ev &, const Ev &e, St, Ev *);\n"
+                     "  int defaults(int a = 3, int = 4);\n  virtual int vm(int, Ev);\n  virtual int pure(St) = 0;\n  int over(int);\n  int over(double, int);\n  Buffer &operator+=(const Buffer &);\n"
+                     "  bool operator==(const Buffer &) const;\n  void (*cb)(int, char);\n  int takes_cb(int (*)(int, Ev *), void (*named)(void));\n};\n"
+                     "class Derived : public Buffer {\npublic:\n  Derived(int, int b);\n  int vm(int, Ev) override;\n  int pure(St) override;\n  static Derived make(Ev, int);\n};\n"
+                     "namespace ns { class Inner { public: Inner(int); static int mk(int, Ev); int m(Ev, int x) const; }; }\n"
+                     "int free_fn(int, Ev, int named);\n")
+        for extra in ([], ["--enable-cxx-namespaces"], ["--wrap-unsafe-ops", "--no-layout-tests"], ["--vtable-generation", "--generate-inline-functions"],
+                      ["--generate-pure-virtual-functions", "--generate-deleted-functions", "--with-derive-default"], ["--use-core", "--no-derive-copy", "--disable-name-namespacing"][:2]):
+            fixed[len(cases)] = ["--rust-edition", "2021"] + extra
+            cases.append(("cpp-members", MEMBERS_H, True))
+        # (known finding: the generated name of an unnamed parameter can collide with a real parameter called argN)
+        fixed[len(cases)] = ["--rust-edition", "2021"]
+        cases.append(("arg-name-clash", "class K { public: int arg_clash(int arg1, int, int arg0); };\nint free_clash(int arg1, int, int arg0);\n", True))
         for i in range(N // 2):
             gph = c07mod.Graph(r, r.choice([3, 5, 8]))
             cases.append(("cpp-graphs", gph.render(gph.orders(1)[0]), True))
